@@ -19,7 +19,7 @@ var urlVals = []string{"/%2fa@^@", "http:/%2fa@^@", "/%2f::^@", "/%2Fa@b^@/c", "
 	"http:\\\\evil.com", "a/b:c", "%6aavascript:x", "?q=<b>", "http://é.com/é?é#é", "", " ", "http://x/%zz", "http://example.org/ok/1", "https://example.org/no", "HTTP://EXAMPLE.ORG/ok",
 	"http://x/?a=1&b=2;c=3", "http://x/?<x>=1", "http://user:pw@h:80/p", "sftp://h/", "tels:1",
 	" http://example.com/x", "http://example.com/y ", "http://example.com/z\n", "\thttps://example.org/ok/t", "data:image/png;base64,iVBO\nRw0KGgo=", " /rel/padded ", "\u00a0http://example.com/nbsp",
-	"/%2Fevil.com\"", "/%2fevil.com/\u00e9", "/%2F%2Fx\"y", "%2F/x'", "/a/..%2F%2Fb<", "data:\u023a \u023a;base64,A", "DATA:image/png;base64,iVBO\nRw0KGgo=", "DATA:image/png;base64,iVBORw0K GgoAAAAN", "Data:image/png;base64,iVBO Rw0K\tGgo=", "data:image/png;base64,iVBO Rw0KGgo=", "data:\u023e\t;base64,", "http://example.com/?a=1&region=eu&copy=2", "http://example.com/?q=a\u3000#", "data:image/gif;base64,R0lGODlh #", "mailto:a@b.c\u00a0#", "tel:+123456\u3000#", "mailto:someone@example.com\u2003#", "%2f/x", "/a%2f..%2fb", "http://example.com/a b#", "http://example.com/#\u00a0", "http://example.com/? #", "/x?y= #"}
+	"/%2Fevil.com\"", "/%2fevil.com/\u00e9", "/%2F%2Fx\"y", "%2F/x'", "/a/..%2F%2Fb<", "data:\u023a \u023a;base64,A", "DATA:image/png;base64,iVBO\nRw0KGgo=", "DATA:image/png;base64,iVBORw0K GgoAAAAN", "Data:image/png;base64,iVBO Rw0K\tGgo=", "data:image/png;base64,iVBO Rw0KGgo=", "data:\u023e\t;base64,", "http://example.com/?a=1&region=eu&copy=2", "http://example.com/?q=a\u3000#", "data:image/gif;base64,R0lGODlh #", "data:text/html ;base64,PHNjcmlwdD4=", "data:image/png ;base64,iVBO\nRw0K", "data:image/png;x= y;base64,iVBORw0K", "mailto:a@b.c\u00a0#", "tel:+123456\u3000#", "mailto:someone@example.com\u2003#", "%2f/x", "/a%2f..%2fb", "http://example.com/a b#", "http://example.com/#\u00a0", "http://example.com/? #", "/x?y= #"}
 
 var otherVals = []string{"", "1", "42", "50%", "rtl", "en", "a b", "nofollow", "noopener noreferrer", "_blank", "_self", "anonymous", "use-credentials", "allow-scripts allow-forms",
 	"allow-scripts allow-scripts x", "Hello, world!", "a<b", "a\"b", "a'b", "a&amp;b", "x y z", "abc", "ABC", "open", "1997-07-16", "left", "color: red", "color:red;background:url(javascript:x)",
@@ -130,7 +130,7 @@ func lookAlike(t *rapid.T, s string) string {
 	return s
 }
 
-var dataAttrShapes = []string{"data-\xff", "data-a\xc0\xa2", "data-\xe2\x80", "data-x", "data-;a", "data-;", "data-a;", "data-A", "data-xmlfoo", "data-xml", "data-", "data-data-x", "data-data-;", "data-\u00e9", "data-a\"b", "data-a'b", "data-a=b",
+var dataAttrShapes = []string{"data-a\xef", "data-\xefb", "data-\xff", "data-a\xc0\xa2", "data-\xe2\x80", "data-x", "data-;a", "data-;", "data-a;", "data-A", "data-xmlfoo", "data-xml", "data-", "data-data-x", "data-data-;", "data-\u00e9", "data-a\"b", "data-a'b", "data-a=b",
 	"data-x-y", "data-1", "data--", "data-a:b", "DATA-UP", "data-onclick", "data-a<b", "dataset-x", "data"}
 
 // hostile spellings of an attribute name that must not be mistaken for the name itself
@@ -322,7 +322,13 @@ func (g *treeGen) gen(depth int) *node {
 		// src=https://example.com/embed/>): conforming HTML, a start tag with the solidus in the value
 		k, _ := genAttrKV(g.t, g.attrs)
 		if !strings.ContainsAny(k, " \t\n\f\r\"'=<>/`\x00") {
-			n.attrs = append(n.attrs, k+"="+rapid.SampledFrom([]string{"x/", "/p/", "https://example.com/embed/", "/", "a//"}).Draw(g.t, "unquotedSolidusVal"))
+			if rapid.IntRange(0, 2).Draw(g.t, "entityNeighbour") == 0 {
+				// character references that decode to a quote or white space: the raw text of the tag and
+				// its decoded attribute values must not be confused
+				n.attrs = append(n.attrs, rapid.SampledFrom([]string{"title=&quot;", "name=x&#32;y", "title=&#39;q", "title=&apos;", "lang=&quot;x&quot;"}).Draw(g.t, "entityAttr"))
+			}
+			v := rapid.SampledFrom([]string{"x/", "/p/", "https://example.com/embed/", "/", "a//", "5'10\"/", "it's/", " /"}).Draw(g.t, "unquotedSolidusVal")
+			n.attrs = append(n.attrs, k+"="+v)
 		}
 	}
 	if voidEls[el] {
@@ -344,6 +350,11 @@ func (g *treeGen) gen(depth int) *node {
 	if g.selfClose && !selfCloseUnsafe[el] && rapid.IntRange(0, 7).Draw(g.t, "selfClose") == 0 {
 		// <object/>: one self-closing token for the tokenizer, neither opens nor closes anything
 		n.selfClosed = true
+		if rapid.IntRange(0, 3).Draw(g.t, "selfCloseQuotedTrap") == 0 {
+			// a quoted value that, once its character reference is decoded, looks like the end of one
+			// value and the start of an unquoted one ending in a solidus: still a self-closing tag
+			n.attrs = append(n.attrs, `title='&apos; b=c/'`)
+		}
 		return n
 	}
 	nk := rapid.IntRange(0, 3).Draw(g.t, "nk")
@@ -474,7 +485,7 @@ func sortedKeys(m map[string]bool) []string {
 // ---------------------------------------------------------------------------------------------
 // style strings (also used inside soup attributes)
 
-var cssValuePool = []string{"translate(1px\\)", "rgb(1,2,3\\); width: 1px", "\"\\22\" \"\\22\"", "\"a\\29 b\"", "pin\u212a", "wh\u0130te", "\u212aelvin", "lin\u212a", "rgb(1,2,3\\29", "translate(1px\\29 ", "url(\\22https://example.com/x.png\\22)", "rgb(1,2,3\\29; width: 1px", "calc(1px \\2b 1px\\29", "teal", "plum", "red", "RED", "blue", "re d", "left", "center", "10px", "10PX", "alpha beta", "underline", "underline overline", "1px 2px", "arial", "'times new roman'", "arial, sans-serif",
+var cssValuePool = []string{"attr(\"it's\" \\29 ", "f('a\"b' \\29 ", "\"'\" \\22\\22\\22 ", "'\"' \\29 ", "translate(1px\\)", "rgb(1,2,3\\); width: 1px", "\"\\22\" \"\\22\"", "\"a\\29 b\"", "pin\u212a", "wh\u0130te", "\u212aelvin", "lin\u212a", "rgb(1,2,3\\29", "translate(1px\\29 ", "url(\\22https://example.com/x.png\\22)", "rgb(1,2,3\\29; width: 1px", "calc(1px \\2b 1px\\29", "teal", "plum", "red", "RED", "blue", "re d", "left", "center", "10px", "10PX", "alpha beta", "underline", "underline overline", "1px 2px", "arial", "'times new roman'", "arial, sans-serif",
 	"url(http://x.y/z.png)", "url(javascript:alert(1))", "expression(alert(1))", "0.5", "1.0", "", "a b c", "#fff", "rgb(1,2,3)", "x;y", "\"a;b\"", "url(a;b)", "f(a;b)", "a:b", "{a}", "[a]", "a}b",
 	"'abc", "a\\", "a\\\nb", "/*c*/red", "red/**/", "r/**/ed", "\u017folid", "\u017fOLID", "bloc\u212a", "da\u017fhed", "solid", "BLOCK", "dashed", "center\u0130", "underl\u0131ne", "URL(/x//*);position:fixed;x:(*/)", "url(/x/ /*); position: fixed; x: (*/)", "url(a \"); position: fixed; x: (\")", "\\75rl(/x//*);top:0;x:(*/)", "a\\3A", "b\\4A c", "c\\5F", "x\\2F\\2A y", "\\3B", "alph\\61\tbeta", "alph\\61\nbeta", "soli\\64\fred", "a\\62\tc", "red !important", "red!IMPORTANT", "red !important !important", "red !important!important", "red ! important", "red !IMPORTANT !important ", "red\\ ", "red \\ ", "1px\\ ", "<b>", "a&b", "@import", "!x", "1px", "none", "2em", "50%", "1px solid red", "1"}
 var cssEscPool = []string{`\)`, `\(`, `\) `, `\\62 `, `\72 `, `\72`, `\0072 `, `\000072`, `\000072 `, `\52 `, `\20 `, `\a `, `\9 `, `\d `, `\a0 `, `\5c `, `\5c`, `\10000 `, `\10ffff `, `\110000 `, `\d800 `, `\0 `, `\r`, `\z`, `\;`, `\"`, `\\`,
